@@ -706,7 +706,7 @@ func (h *hist) opSetTip() {
 // opReopen closes the pool and opens the same directory again: contents must be reproduced.
 func (h *hist) opReopen() {
 	h.begin("close + reopen")
-	pre := h.pool.VerifSnapshot(true)
+	pre := h.pool.VerifSnapshot(2)
 	if err := h.pool.Close(); err != nil {
 		h.viol("close-failed", fmt.Sprintf("Close: %v", err))
 	}
@@ -752,10 +752,10 @@ func (h *hist) runWorkload(nOps, stopAfter int) {
 		r.Case("C42 history %d step %d dir %s", h.idx, step, h.dir)
 		panicked := r.Guard("op", h.witness(), func() {
 			switch x := h.rng.Intn(100); {
-			case x < 56:
-				h.opAdd(false)
 			case x < 59:
-				h.opAdd(true)
+				// one Add in about 250 goes through the full public path (cell computation and
+				// KZG verification, ~0.5 s CPU); the others use the cheap public path
+				h.opAdd(h.rng.Intn(250) == 0)
 			case x < 76:
 				h.opReset(false)
 			case x < 85:
@@ -783,6 +783,10 @@ func (h *hist) runWorkload(nOps, stopAfter int) {
 		}
 	}
 	if !h.dead && stopAfter < 0 {
+		h.opNo = 8 * (h.opNo/8 + 1) // force a physical walk
+		h.begin("final check")
+		h.opNo--
+		h.end(h.check("final", h.prev))
 		if err := h.pool.Close(); err != nil {
 			h.viol("close-failed", fmt.Sprintf("Close: %v", err))
 		}
